@@ -1150,7 +1150,20 @@ impl Session {
                     self.frame(p);
                 }
             }
-            let busy = self.received_in_round > 0
+            let joining = self.peers.iter().any(|p| {
+                if p.panicked || !p.is_setup {
+                    return false;
+                }
+                let w = p.app.world();
+                let has_cli = w.contains_resource::<NetcodeClientTransport>();
+                let connecting = w.get_resource::<RenetClient>().map(|c| c.is_connecting()).unwrap_or(false);
+                let st_connected = matches!(w.get_resource::<State<ClientState>>().map(|s| s.get().clone()), Some(ClientState::Connected));
+                let fin = w.get_resource::<FinCount>().map(|c| c.0).unwrap_or(0);
+                // a handshake or an initial sync still under way
+                has_cli && ((connecting && !st_connected) || (st_connected && fin == 0 && w.get_resource::<RenetClient>().map(|c| c.is_connected()).unwrap_or(false)))
+            });
+            let busy = joining
+                || self.received_in_round > 0
                 || self.peers.iter().any(|p| {
                     !p.panicked
                         && verif::tracker_stats(p.app.world()).map(|t| !t.queue.is_empty()).unwrap_or(false)
